@@ -405,9 +405,13 @@ class Branch(SequenceSet[Node], EventEmitter, abcs.Copyable, metaclass=BranchMet
         if isinstance(node, SentenceNode):
             s: Sentence = node[Node.Key.sentence]
             if len(cons := s.constants):
-                if self._nextconst in cons:
-                    self._nextconst = max(cons).next()
                 self._constants.update(cons)
+                if self._nextconst in cons:
+                    c = max(cons).next()
+                    # Constants above the candidate may already be on the branch.
+                    while c in self._constants:
+                        c = c.next()
+                    self._nextconst = c
 
         if isinstance(node, Modal):
             worlds = frozenset(node.worlds())
